@@ -465,14 +465,18 @@ Definition replace_property (ps : wprops) (name : list N) (v : value) : wprops :
 Definition cellname_props (cfg : wcfg) (c : wcell) (offset : N) : wprops :=
   if cfg_cell_offset cfg then replace_property (cl_props c) s_cell_offset_name (VUInt offset) else cl_props c.
 
+(* cell_offset_map.get(cell->name): the position recorded for the last cell of that name *)
+Definition cell_offset_of (cells : list (list N)) (offs : list N) (name : list N) : N :=
+  match cell_index cells name with Some i => nth (N.to_nat i) offs 0 | None => 0 end.
+
 (* second `for (i = 0; i < c_size; i++)`: CELLNAME_IMPLICIT record, then the cell's properties *)
-Fixpoint cellnames_to_oas (cfg : wcfg) (st : pstate) (l : list wcell) (offs : list N)
+Fixpoint cellnames_to_oas (cfg : wcfg) (cells : list (list N)) (offs : list N) (st : pstate) (l : list wcell)
   : list (list N) * list (list prop) * pstate :=
   match l with
   | [] => ([], [], st)
   | c :: t =>
-      let '(pr, pd, st1) := properties_to_oas st (cellname_props cfg c (hd 0 offs)) in
-      let '(r2, d2, st2) := cellnames_to_oas cfg st1 t (tl offs) in
+      let '(pr, pd, st1) := properties_to_oas st (cellname_props cfg c (cell_offset_of cells offs (cl_name c))) in
+      let '(r2, d2, st2) := cellnames_to_oas cfg cells offs st1 t in
       ((OasisRecord_CELLNAME_IMPLICIT :: wr_cstring (cl_name c)) :: pr ++ r2, pd :: d2, st2)
   end.
 
@@ -511,7 +515,7 @@ Definition write_oas_run (cfg : wcfg) (l : wlib) : wrun :=
   let pos1 := N.of_nat (length start) + reclen r_lp in
   let '(r_c, d_c, offs, ts, st2) := cells_to_oas names pos1 names0 st1 (li_cells l) in
   let cell_name_offset := match li_cells l with [] => 0 | _ => pos1 + reclen r_c end in
-  let '(r_cn, d_cn, st3) := cellnames_to_oas cfg st2 (li_cells l) offs in
+  let '(r_cn, d_cn, st3) := cellnames_to_oas cfg names offs st2 (li_cells l) in
   let pos3 := pos1 + reclen r_c + reclen r_cn in
   let text_string_offset := if 0 <? nm_count ts then pos3 else 0 in
   let r_ts := numbered_name_records OasisRecord_TEXTSTRING (nm_items ts) in
@@ -563,18 +567,13 @@ Definition view_ref (r : wref) : element * list prop :=
 Definition view_label (t : wlabel) : element * list prop :=
   (E_text (NName (lb_text t)) (lb_layer t) (lb_type t) (lb_x t) (lb_y t) (view_rep (lb_rep t)), view_props (lb_props t)).
 
-Definition view_cell (cfg : wcfg) (c : wcell) (offset : N) : cell :=
-  mkCell (NName (cl_name c)) (view_props (cellname_props cfg c offset))
+Definition view_cell (cfg : wcfg) (cells : list (list N)) (offs : list N) (c : wcell) : cell :=
+  mkCell (NName (cl_name c)) (view_props (cellname_props cfg c (cell_offset_of cells offs (cl_name c))))
          (map view_poly (cl_polys c) ++ flat_map view_path (cl_paths c) ++ map view_ref (cl_refs c) ++
           map view_label (cl_labels c)).
-Fixpoint view_cells (cfg : wcfg) (l : list wcell) (offs : list N) : list cell :=
-  match l with
-  | [] => []
-  | c :: t => view_cell cfg c (hd 0 offs) :: view_cells cfg t (tl offs)
-  end.
 
 (* the positions of the CELL records in the file the model writes (only looked at when cfg_cell_offset is set) *)
 Definition cell_offsets (cfg : wcfg) (l : wlib) : list N := run_offsets (write_oas_run cfg l).
 
 Definition view_w (cfg : wcfg) (l : wlib) : layout :=
-  mkLayout (real_of_bits (li_unit l)) (view_props (li_props l)) (view_cells cfg (li_cells l) (cell_offsets cfg l)).
+  mkLayout (real_of_bits (li_unit l)) (view_props (li_props l)) (map (view_cell cfg (map cl_name (li_cells l)) (cell_offsets cfg l)) (li_cells l)).
